@@ -204,6 +204,7 @@ pub fn run(op: &str, a: &[&str]) -> Option<String> {
                 ("raw", r16(hdr.calc_checksum_ipv6_raw(src, dst, &pl))),
                 ("hdr", r16(hdr.calc_checksum_ipv6(&ip, &pl))),
                 ("hslice", r16(hs.calc_checksum_ipv6_raw(src, dst, &pl))),
+                ("hslice_ip", r16(hs.calc_checksum_ipv6(&Ipv6HeaderSlice::from_slice(&ip.to_bytes()).ok()?, &pl))),
                 ("slice", r16(ts.calc_checksum_ipv6(src, dst))),
                 ("update", r16(upd)),
             ])
